@@ -8,6 +8,7 @@ from ..flow import Flow
 from ..serial import Registry
 from ..util import calls_in, call_name, where, returns_of
 from .. import props
+from ..util import expand_locals, parent_map
 from . import common
 from . import C02
 
@@ -39,6 +40,7 @@ def run(ctx):
     ctx.guard(rule_g, ctx, ix)
     ctx.guard(rule_h, ctx, ix)
     ctx.guard(rule_j, ctx, ix)
+    ctx.guard(rule_k, ctx, ix)
     # a region's containment test must not depend on the absolute size of the numbers: the scale-free rule of the polygon helpers
     from ..report import BorrowedCtx
     from .C09 import rule_g as _scale_free
@@ -598,3 +600,53 @@ def rule_j(ctx, ix):
                           'the original hold that same container - transforming one of them moves the other as well, and a copy no '
                           'longer contains the points it was made with' % (f.construct, sorted({b[1] for b in bad}), norm(bad[0][0]) if bad else ''),
                    where=where(f, bad[0][0]) if bad else f.where)
+
+
+# which rotations map the shape onto itself: a rectangle and an ellipse are symmetric under a half turn, a polygon under whole turns only
+SYMMETRY = {
+    'RectangularROI': 'pi',
+    'EllipticalROI': 'pi',
+    'PolygonalROI': '2pi',
+}
+PERIODS = {'np.pi': 'pi', 'np.pi / 2': 'pi/2', '2 * np.pi': '2pi', 'np.pi * 2': '2pi', '2.0 * np.pi': '2pi', 'np.pi / 2.0': 'pi/2',
+           '0.5 * np.pi': 'pi/2', 'np.pi * 0.5': 'pi/2'}
+ORDER = {'pi/2': 1, 'pi': 2, '2pi': 4}
+
+
+def rule_k(ctx, ix):
+    """A shortcut chosen by `angle % period ~ 0` treats all multiples of the period alike.  That is right only when the period is a
+    symmetry of the shape (rectangle, ellipse: half turns; polygon: whole turns).  A quarter-turn test is right only as the second
+    test of a chain whose first test took the half turns away (what remains is `angle = pi/2 mod pi`: the axes exchanged)."""
+    R = 'C08.k'
+    ctx.describe(R, 'the period of every angle test is a symmetry of the shape (quarter-turn tests only behind the half-turn test)', floor=8)
+    mod = ix.module('glue.core.roi')
+    for cn in [c for c in mod.tree.body if isinstance(c, ast.ClassDef)]:
+        for fn in [n for n in cn.body if isinstance(n, ast.FunctionDef)]:
+            pm = parent_map(fn)
+            for iff in [x for x in ast.walk(fn) if isinstance(x, (ast.If, ast.IfExp))]:
+                t = expand_locals(fn, iff.test)
+                mods = [b for b in ast.walk(t) if isinstance(b, ast.BinOp) and isinstance(b.op, ast.Mod) and 'theta' in unparse(b.left)]
+                for b in mods:
+                    per = PERIODS.get(unparse(b.right))
+                    sym = SYMMETRY.get(cn.name)
+                    construct = 'glue.core.roi:%s.%s `%s`' % (cn.name, fn.name, norm(b))
+                    if per is None or sym is None:
+                        ctx.idiom(R, construct, 'period recognised', accepted=False, absent=False, detail_absent='',
+                                  shape='period `%s` in class %s' % (unparse(b.right), cn.name))
+                        continue
+                    if ORDER[per] >= ORDER[sym]:
+                        ctx.ob(R, construct, 'the period (%s) is a symmetry of a %s' % (per, cn.name), True)
+                        continue
+                    # a shorter period: only as the `elif` right behind the test of the symmetry period on the same angle
+                    par = pm.get(id(iff))
+                    behind = isinstance(iff, ast.If) and isinstance(par, ast.If) and par.orelse == [iff] and any(
+                        isinstance(b2, ast.BinOp) and isinstance(b2.op, ast.Mod) and unparse(b2.left) == unparse(b.left)
+                        and PERIODS.get(unparse(b2.right)) == sym for b2 in ast.walk(expand_locals(fn, par.test))) and not any(
+                        isinstance(u, ast.Not) for u in ast.walk(par.test))
+                    ctx.ob(R, construct, 'a test with period %s stands behind the test with the symmetry period %s' % (per, sym), behind,
+                           detail='%s.%s takes a shortcut for every angle that is a multiple of %s (`%s`), but a %s is mapped onto itself '
+                                  'only by multiples of %s: at the other multiples (%s) the shortcut leaves out a rotation that changes '
+                                  'the region, so the contained set / polygon is that of the unrotated shape'
+                                  % (cn.name, fn.name, per, norm(iff.test), cn.name, sym,
+                                     'theta = pi/2, 3pi/2' if per == 'pi/2' else 'theta = pi, 3pi'),
+                           where='%s:%d' % (mod.relpath, iff.lineno))
